@@ -111,6 +111,18 @@ fn alphabet(tier: Tier) -> Vec<Op> {
         "SELECT a FROM (VALUES (1), (2)) AS t(a)",
         "SELECT 1 AS one, 2 AS two FROM users",
         "SELECT id FROM users WHERE random() < 0.5",
+        // the same function with different numbers / kinds of arguments (per-thread function tables)
+        "SELECT concat(city, 'x') AS c FROM users",
+        "SELECT concat(city, 'x', city) AS c FROM users",
+        "SELECT concat(city, 'y', 'z', city) AS c FROM users",
+        "SELECT coalesce(amount, 0) AS c FROM orders",
+        "SELECT coalesce(amount, user_id, 0) AS c FROM orders",
+        "SELECT round(amount) AS r FROM orders",
+        "SELECT round(amount, 1) AS r FROM orders",
+        "SELECT CAST(id AS TEXT) AS t, CAST(age AS FLOAT) AS f FROM users",
+        "SELECT CAST(city AS TEXT) AS t, CAST(id AS FLOAT) AS f FROM users",
+        "SELECT greatest(age, 19) AS g FROM users",
+        "SELECT greatest(id, age) AS g FROM users",
     ] {
         ops.push(Op::Compile(s.into()));
     }
@@ -170,6 +182,19 @@ fn part_a(ctx: &Ctx, r: &mut Report) {
             }
         }
     }
+    // every operation on a FRESH thread (clean thread-local function tables) gives the output it gave on the long-lived
+    // thread after all the operations before it: nothing cached per thread leaks into a later compilation
+    for (i, op) in ops.iter().enumerate() {
+        namer::reset();
+        let fresh = std::thread::scope(|sc| std::thread::Builder::new().stack_size(64 << 20).spawn_scoped(sc, || op.run(&relations)).expect("spawn").join().unwrap_or_else(|_| "THREAD-PANIC".to_string()));
+        r.evaluations += 1;
+        if fresh != baseline[i] {
+            let mut d = diff_summary(&fresh, &baseline[i]);
+            d["note"] = json!("output on a fresh thread vs output on a thread that compiled the earlier operations of the alphabet");
+            flag(r, "depends-on-earlier-compilations-of-the-thread", op, d);
+        }
+    }
+    r.add_count("fresh_thread_runs", ops.len() as u64);
     // histories made of the operation itself: op ; op and op ; op ; op without a reset in between (a name taken
     // from a counter keyed by the node's own content only moves when the SAME text is compiled again)
     for (i, op) in ops.iter().enumerate() {
